@@ -330,6 +330,22 @@ def _ncwb(ctx, plat):
         else:
             _copy_case("AddrGroup", "object-group network G\n host 10.0.0.1\n 10.0.0.0 255.255.255.0", kw,
                        ctx)
+    # a member OBJECT created under another limit than its group (it keeps its own limit)
+    from cisco_acl import Address as _Adr
+
+    ref = "object-group G" if plat == "ios" else "addrgroup G"
+    for glimit, mlimit, wild in ((16, 4, "0.0.5.0"), (4, 16, "0.0.85.0"), (16, 20, "1.255.255.0"), (0, 16, "0.0.5.0")):
+        adr = f"10.0.0.0 {wild}" if wild != "1.255.255.0" else f"0.0.0.0 {wild}"
+
+        def attach(obj, side=None, adr=adr, mlimit=mlimit):
+            tgt = obj if side is None else getattr(obj, side)
+            tgt.items = [_Adr(adr, platform=plat, max_ncwb=mlimit), "host 10.0.0.9"]
+
+        kw = dict(platform=plat, max_ncwb=glimit)
+        _copy_case("Address", ref, kw, ctx, prepare=attach)
+        _copy_case("Ace", f"permit ip {ref} any", kw, ctx, prepare=lambda o: attach(o, "srcaddr"))
+        _copy_case("Acl", PR.header(plat) + f"\n permit ip any {ref}\n deny ip any any", kw, ctx,
+                   prepare=lambda o: attach(o.items[0], "dstaddr"))
     ctx.sample("ncwb", "non-default max_ncwb 0/4/20 at every level")
 
 
